@@ -54,6 +54,42 @@ def run(replay=None):
                 body += [f"d.update {rng.choice([0, 1])} " + " ".join(parts), "d.solve", "d.result"]
         L = gen_dbl.case_lines(be, pk, st, body)
         cases.append({"name": f"a{i}", "lines": L, "meta": {"be": be, "pk": pk, "kind": pr.kind, "n": pr.n, "p": pr.p, "m": pr.m, "st": st}})
+    # setup() called again on the same object with a problem of the same dimensions and the same number of stored entries but
+    # another sparsity pattern (variables renumbered): everything sized or analysed by the first setup must be redone; the
+    # second problem's results must be bit-for-bit those of a fresh solver (twin case)
+    resetup = []
+    for i in range(400 if thorough else 40):
+        be, pk = rng.randrange(5), rng.choice([0, 1])
+        pr = gen_dbl.wellposed(rng, n=rng.randint(3, 7), dens=rng.choice([0.3, 0.5]))
+        perm = list(range(pr.n))
+        rng.shuffle(perm)
+        pr2 = gen_dbl.permuted(pr, perm)
+        st = {"max_iter": 60}
+        a = gen_dbl.case_lines(be, pk, st, ["d.setup " + pr.args(be != 0), "d.solve", "d.setup " + pr2.args(be != 0), "d.solve", "d.result"])
+        b = gen_dbl.case_lines(be, pk, st, ["d.setup " + pr2.args(be != 0), "d.solve", "d.result"])
+        meta = {"be": be, "pk": pk, "kind": "resetup", "n": pr.n, "p": pr.p, "m": pr.m, "st": st}
+        resetup.append(({"name": f"rs{i}", "lines": a, "meta": meta}, {"name": f"rs{i}_fresh", "lines": b, "meta": meta}))
+    rs_out, rs_lost = run_chunks([exe], [c for pair in resetup for c in pair], 12, 60)
+    nrs = 0
+    for x in rs_lost[:3]:
+        c = next((c for pair in resetup for c in pair if c["name"] == x["name"]), None)
+        chk.violation(f"impl:{'hang' if 'timeout' in x['why'] else 'crash'}:resetup:be{c['meta']['be'] if c else '?'}",
+                      f"setup; solve; setup(another pattern, same sizes); solve did not terminate normally: {x['why']}\n\ninput:\n" + (case_text(c) if c else ""))
+    for a, b in resetup:
+        oa, ob = rs_out.get(a["name"]), rs_out.get(b["name"])
+        if oa is None or ob is None:
+            continue
+        nrs += 1
+        ra = [l for l in oa if l.split(" ")[0] in ("info", "x", "y", "z", "z_lb", "z_ub", "s", "s_lb", "s_ub")][-9:]
+        rb = [l for l in ob if l.split(" ")[0] in ("info", "x", "y", "z", "z_lb", "z_ub", "s", "s_lb", "s_ub")][-9:]
+        if ra != rb:
+            k = next((i for i in range(min(len(ra), len(rb))) if ra[i] != rb[i]), 0)
+            chk.violation(f"impl:resetup-differs:be{a['meta']['be']}:{(ra[k].split() or ['?'])[0] if ra else '?'}",
+                          "a second setup() on the same solver object (same dimensions and entry counts, another sparsity pattern) does not "
+                          "behave like a fresh solver: results differ bit-for-bit from the twin that was set up once\n"
+                          f"first differing line:\n  re-setup: {ra[k][:200] if ra else '<none>'}\n  fresh   : {rb[k][:200] if rb else '<none>'}\n\ninput:\n" + case_text(a))
+            break
+    chk.cov["resetup_twin_pairs"] = nrs
     impl, bad, stats = skelrun.run_tie_b(cases, exe, timeout=60)
     byname = {c["name"]: c for c in cases}
     chk.cov["evaluations"] = len(cases)
